@@ -22,7 +22,8 @@ RULE = (
     "threshold, events within +-14 h of New Year written in non-UTC offsets so that own-timestamp year != UTC year) x "
     "methods / schedules x {no to-date, to-dates on / next to / between event dates} x optional from-date; yearly lines "
     "of each run vs Fraction sums over the fractions of the unfiltered run of the same history. Non-trivial = >= 2 yearly "
-    "lines of which one sums >= 2 fractions; distinct = hash of (history, schedule, to, from)"
+    "lines of which one sums >= 2 fractions; distinct = hash of (history, schedule, to, from). "
+    "The repository's own example inputs (input/*.ods read independently of RP2's parser, every method and the config's schedule, -n) are part of the workload"
 )
 ASSUMPTIONS = [
     "to-dates are only used where own-date order and instant order agree across the cut (the rest is known finding KF1 of C10)",
